@@ -56,7 +56,7 @@ int main(int argc, char **argv){
         for(auto &l : L){ WU u; u.si = si; u.root = false; u.whole = true; u.lat = l; W.push_back(u); nlat++; }
     }
     // quick tier: the full bound on the scenarios with the richest protocol behaviour, bound-1 on the others (reported in the summary)
-    auto sbound = [&](int si)->int{ if (tier != "quick") return bound; static const int full[] = {0, 1, 2, 3, 9, 12}; for(int f : full) if (f == si) return bound; return std::min(bound, 1); };
+    auto sbound = [&](int si)->int{ if (tier != "quick") return bound; static const int full[] = {0, 1, 2, 3, 9, 12}; /* scenario 13 (preloaded grid, ~50 ms per execution) stays at bound 1 */ for(int f : full) if (f == si) return bound; return std::min(bound, 1); };
     size_t done = vf::parallel_units(W.size(), (int) A.geti("--workers", 8), [&](size_t ui){
         const WU &u = W[ui]; vx::Stats S; std::map<std::string,long> oc; int si = u.si; g_nviol = 0; g_lat = u.lat;
         auto on_exec = [&](const vx::Result &x, const std::vector<int> &p){ check_exec(si, x, p, oc); };
